@@ -64,6 +64,7 @@ class FleetStore(Store):
         self._weighted_sum = 0.0
         self.time_averaged_num_of_items_in_store = 0.0  # Time-averaged number of items in the store
         self.activate_fleet= self.env.event()  # Event to activate the fleet when items are available
+        self.items_in_transit = []  # items of self.items that a trip under way has already taken along
         
         self.env.process(self.fleet_activation_process())  # Start the fleet activation process
 
@@ -91,13 +92,14 @@ class FleetStore(Store):
             
             print(f"T={self.env.now:.2f}: Fleet activation process triggered.")
             
-            if self.items:
-                print(f"T={self.env.now:.2f}: Fleet activated with {len(self.items)} items ready.")
-                self.env.process(self.move_to_ready_items(self.items))
-                #self.env.process(self.move_to_ready_items(self.items))
-                if self.activate_fleet.triggered:
-                    #print("yes")
-                    self.activate_fleet = self.env.event()  # Reset the event for next activation
+            # the batch of this trip: items loaded so far that no earlier trip has taken along
+            batch = [item for item in self.items if not any(item is moving for moving in self.items_in_transit)]
+            if batch:
+                print(f"T={self.env.now:.2f}: Fleet activated with {len(batch)} items ready.")
+                self.items_in_transit.extend(batch)
+                self.env.process(self.move_to_ready_items(batch))
+            if self.activate_fleet.triggered:
+                self.activate_fleet = self.env.event()  # Reset the event for next activation
 
     def reserve_put(self, priority=0):
         """
@@ -710,8 +712,9 @@ class FleetStore(Store):
             
             for item in items:
                 
-                item_index = self.items.index(item)
-                item_to_put = self.items.pop(item_index)  # Remove the first item
+                item_index = next(i for i, stored in enumerate(self.items) if stored is item)
+                item_to_put = self.items.pop(item_index)  # Remove the item from the load
+                self.items_in_transit = [moving for moving in self.items_in_transit if moving is not item]
                
                 if len(self.ready_items) < self.capacity:
                     self.ready_items.append(item_to_put)
